@@ -1,3 +1,3 @@
 #include "../engine/pbt.h"
-extern const module_t mod_C01, mod_C02, mod_C03, mod_C04, mod_C05, mod_C06, mod_C08, mod_C10;
-const module_t *const all_modules[] = {&mod_C01, &mod_C02, &mod_C03, &mod_C04, &mod_C05, &mod_C06, &mod_C08, &mod_C10, 0};
+extern const module_t mod_C01, mod_C02, mod_C03, mod_C04, mod_C05, mod_C06, mod_C07, mod_C08, mod_C10;
+const module_t *const all_modules[] = {&mod_C01, &mod_C02, &mod_C03, &mod_C04, &mod_C05, &mod_C06, &mod_C07, &mod_C08, &mod_C10, 0};
